@@ -295,7 +295,7 @@ Qed.
 Section RangeDomain.
   Variable num : numparser.
   Variable dpre deff : nat.
-  Hypothesis Hnum : forall d s x, num s = Some x -> num_ok num d x = true.
+  Hypothesis Hnum : forall d, d = dpre \/ d = deff -> forall s x, num s = Some x -> num_ok num d x = true.
   Hypothesis Hnum_cmp : forall c r x, num (String c r) = Some x -> str_in (String c EmptyString) comparison_ops = false.
 
   Definition types_struct (tt : typetable) : Prop :=
@@ -413,3 +413,55 @@ Section RangeDomain.
         cbn [forallb] in Hnv. apply andb_true_iff in Hnv. destruct Hnv as [_ Hnr].
         apply (IH (S k) d1 m Hc Hnr (header_step st d h body d1 k Hinv H1 Ek Hle) H).
   Qed.
+
+  (* the whole domain *)
+  Theorem parse_domain_wf e m :
+    canonical e = true -> no_vac e = true -> parse_domain num e = Ok m ->
+    (* name hygiene of the result *)
+    forallb (fun kp => not_dash (fst kp)) (d_types m) = true ->
+    forallb (fun ns => negb (str_in (fst ns) reserved_names)) (d_preds m) = true ->
+    (forall k, str_in k ("=" :: comparison_ops ++ assignment_ops) = true -> dget (d_funcs m) k = None) ->
+    wf_mdomain num dpre deff m = true.
+  Proof.
+    intros Hcan Hnv H Hdash Hres Hfres. unfold canonical in Hcan.
+    destruct e as [s|[|[dd|?] sections]]; try discriminate.
+    apply andb_true_iff in Hcan. destruct Hcan as [Hd Hcan]. apply String.eqb_eq in Hd. subst dd.
+    cbn [parse_domain] in H.
+    rewrite no_vac_slist in Hnv. apply andb_true_iff in Hnv. destruct Hnv as [_ Hnv]. cbn [forallb] in Hnv.
+    apply andb_true_iff in Hnv. destruct Hnv as [_ Hnv].
+    assert (Hinit : header_inv 0 empty_domain).
+    { unfold header_inv, empty_domain. cbn [d_types d_consts d_preds d_funcs d_actions].
+      refine (conj (conj (NoDup_nil _) (conj eq_refl eq_refl)) (conj eq_refl (conj (decls_inv_nil _) (conj (decls_inv_nil _)
+                (conj eq_refl (conj _ (conj _ (conj _ _)))))))); intros; reflexivity. }
+    destruct (header_phase sections 0 empty_domain m Hcan Hnv Hinit H) as (d0 & acts & Hd0 & Hshape & Hnva & Hfold).
+    destruct Hd0 as (It & Ic & Ip & If & Ia & _).
+    assert (Hainv0 : actions_inv d0). { unfold actions_inv. rewrite Ia. split; [constructor|reflexivity]. }
+    assert (Hsame0 : forall acts' d m', forallb action_shape acts' = true -> foldM (parse_domain_section num) acts' d = Ok m' ->
+                       d_funcs m' = d_funcs d).
+    { clear. induction acts' as [|e r IH]; intros d m' Hs Hf; cbn [foldM] in Hf; [injection Hf as <-; reflexivity|].
+      cbn [forallb] in Hs. apply andb_true_iff in Hs. destruct Hs as [Hs Hr].
+      destruct (action_shape_inv e Hs) as (n & ps & pre & eff & ->).
+      apply bind_ok in Hf. destruct Hf as (d1 & H1 & Hf).
+      cbn [parse_domain_section String.eqb Ascii.eqb Bool.eqb andb] in H1.
+      apply bind_ok in H1. destruct H1 as (a & Ha & H1). injection H1 as <-.
+      rewrite (IH _ m' Hr Hf). reflexivity. }
+    assert (Hfres0 : forall k, str_in k ("=" :: comparison_ops ++ assignment_ops) = true -> dget (d_funcs d0) k = None).
+    { intros k Hk. rewrite <- (Hsame0 acts d0 m Hshape Hfold). apply Hfres. exact Hk. }
+    destruct (actions_phase acts d0 m Hshape Hnva Hfres0 Hfold Hainv0) as [(T1 & T2 & T3 & T4) [Hnd Hall]].
+    rewrite <- T1 in It. rewrite <- T1, <- T2 in Ic. rewrite <- T1, <- T3 in Ip. rewrite <- T1, <- T4 in If.
+    destruct It as (N1 & N2 & N3). destruct Ip as [P1 P2]. destruct If as [F1 F2].
+    unfold wf_mdomain, wf_mdomain_gen.
+    assert (Wt : wf_types (d_types m) = true).
+    { unfold wf_types. rewrite (nodup_has_dup _ N1), N3. cbn [negb andb]. rewrite andb_true_r.
+      apply forallb_forall. intros kp Hin.
+      pose proof (forallb_In _ _ _ N2 Hin) as H2. pose proof (forallb_In _ _ _ Hdash Hin) as H3.
+      apply andb_true_iff in H2. destruct H2 as [H21 H22]. rewrite H21, H22, H3. reflexivity. }
+    assert (Wp : wf_preds (d_types m) (d_preds m) = true).
+    { unfold wf_preds. rewrite (nodup_has_dup _ P1). cbn [negb andb].
+      apply forallb_forall. intros ns Hin.
+      rewrite (forallb_In _ _ _ Hres Hin), (forallb_In _ _ _ P2 Hin). reflexivity. }
+    assert (Wf : wf_funcs (d_types m) (d_funcs m) = true).
+    { unfold wf_funcs. rewrite (nodup_has_dup _ F1), F2. reflexivity. }
+    rewrite Wt, Ic, Wp, Wf, (nodup_has_dup _ Hnd), Hall. reflexivity.
+  Qed.
+End RangeDomain.
